@@ -47,7 +47,9 @@ if THOROUGH:
     ]
 
 S1 = f"{REQ}._run#ensures[a run still open at the end is closed with the exit status and reason of how the plan ended]"
-t2_tasks(PROP, "exit", SCENARIOS, [c02_checks])
+# 'abort' for pauses / suspensions in a non-resumable section: the engine must abort there rather than pause (C10's clauses, attached here too)
+from .run_mon2 import c10_checks   # noqa: E402
+t2_tasks(PROP, "exit", SCENARIOS, [c02_checks, c10_checks])
 
 
 def _twin_check(sc, tr):
